@@ -54,6 +54,21 @@ def _eq(a, b):
 NEG = {">=": "<", ">": "<=", "!=": "=="}
 
 
+def _neg(c):
+    """negation of a condition in the canonical spelling (`<`, `<=`, `==`, `!=`, `!x`)"""
+    while isinstance(c, dict) and c.get("t") == "Paren":
+        c = c["expr"]
+    if c.get("t") == "Unary" and c.get("op") == "!":
+        return c["expr"]
+    if c.get("t") == "Binary" and c.get("op") in ("==", "!="):
+        return {**c, "op": "!=" if c["op"] == "==" else "=="}
+    if c.get("t") == "Binary" and c.get("op") in ("<", "<=", ">", ">="):
+        c = _flip(c)
+        # !(a < b) == b <= a ;  !(a <= b) == b < a
+        return {**c, "op": "<=" if c["op"] == "<" else "<", "left": c["right"], "right": c["left"]}
+    return {"t": "Unary", "op": "!", "sp": c["sp"], "expr": c}
+
+
 def canon(n):
     """Behaviour-preserving normal form of control-flow idioms, applied to pattern and subject alike:
     `if !c {a} else {b}` -> `if c {b} else {a}`; `if x >= y {a} else {b}` -> `if x < y {b} else {a}` (same for > and !=);
@@ -67,12 +82,26 @@ def canon(n):
             c = c["expr"]
         els = n["else"]
         els_block = els["block"] if isinstance(els, dict) and els.get("t") == "BlockExpr" else None
+        if els_block is not None and not n["then"]["stmts"] and c.get("t") != "Let":
+            # `if c {} else {B}`  ->  `if !c {B}`
+            return canon({**n, "cond": _neg(c), "then": els_block, "else": None})
+        if els_block is not None and not els_block["stmts"] and c.get("t") != "Let":
+            # `if c {A} else {}`  ->  `if c {A}`
+            return canon({**n, "else": None})
         if els_block is not None:
             if c.get("t") == "Unary" and c.get("op") == "!":
                 return canon({**n, "cond": c["expr"], "then": els_block, "else": {"t": "BlockExpr", "block": n["then"], "label": None, "sp": n["then"]["sp"]}})
-            if c.get("t") == "Binary" and c.get("op") in NEG:
-                c2 = {**c, "op": NEG[c["op"]]}
-                return canon({**n, "cond": c2, "then": els_block, "else": {"t": "BlockExpr", "block": n["then"], "label": None, "sp": n["then"]["sp"]}})
+            if c.get("t") == "Binary" and c.get("op") in (">", ">=", "<=", "!="):
+                # one spelling per comparison: strict `<` (operands ordered accordingly) and `==`
+                swapped = {"t": "BlockExpr", "block": n["then"], "label": None, "sp": n["then"]["sp"]}
+                op, l, r = c["op"], c["left"], c["right"]
+                if op == ">":           # a > b  ==  b < a
+                    return canon({**n, "cond": {**c, "op": "<", "left": r, "right": l}})
+                if op == ">=":          # a >= b  ==  !(a < b)
+                    return canon({**n, "cond": {**c, "op": "<"}, "then": els_block, "else": swapped})
+                if op == "<=":          # a <= b  ==  !(b < a)
+                    return canon({**n, "cond": {**c, "op": "<", "left": r, "right": l}, "then": els_block, "else": swapped})
+                return canon({**n, "cond": {**c, "op": "=="}, "then": els_block, "else": swapped})
     if t == "Match" and len(n.get("arms", [])) == 2 and all(a.get("guard") is None for a in n["arms"]):
         a0, a1 = n["arms"]
 
@@ -98,11 +127,19 @@ def canon(n):
     return n
 
 
+def _flip(b):
+    """`a > b` -> `b < a`, `a >= b` -> `b <= a` (one spelling per comparison)"""
+    if isinstance(b, dict) and b.get("t") == "Binary" and b.get("op") in (">", ">="):
+        return {**b, "op": "<" if b["op"] == ">" else "<=", "left": b["right"], "right": b["left"]}
+    return b
+
+
 def _m(p, n, env):
     if isinstance(p, dict) and p.get("t") in ("If", "Match"):
         p = canon(p)
     if isinstance(n, dict) and n.get("t") in ("If", "Match"):
         n = canon(n)
+    p, n = _flip(p), _flip(n)
     if isinstance(p, dict):
         pid = _ident(p)
         if pid and pid.startswith("__v_"):
@@ -134,6 +171,12 @@ def _m(p, n, env):
         # transparent parentheses on the node side
         if n.get("t") == "Paren" and p.get("t") != "Paren":
             return _m(p, n["expr"], env)
+        # `unsafe { e }` with a single value is transparent on either side
+        for a_, b_ in ((p, n), (n, p)):
+            if a_.get("t") == "Unsafe" and b_.get("t") != "Unsafe":
+                st_ = a_["block"]["stmts"]
+                if len(st_) == 1 and st_[0]["t"] == "ExprStmt" and not st_[0]["semi"]:
+                    return _m(st_[0]["expr"], n, env) if a_ is p else _m(p, st_[0]["expr"], env)
         if p.get("t") != n.get("t"):
             return False
         for k, v in p.items():
@@ -176,13 +219,32 @@ def _is_rest(st):
     return False
 
 
+def _flatten_unsafe(stmts):
+    out = []
+    for s_ in stmts:
+        if isinstance(s_, dict) and s_.get("t") == "ExprStmt" and isinstance(s_.get("expr"), dict) and s_["expr"].get("t") == "Unsafe":
+            inner = s_["expr"]["block"]["stmts"]
+            if inner and inner[-1]["t"] == "ExprStmt" and not inner[-1]["semi"] and s_["semi"]:
+                inner = inner[:-1] + [{**inner[-1], "semi": True}]
+            out.extend(_flatten_unsafe(inner))
+        else:
+            out.append(s_)
+    return out
+
+
 def _mlist(ps, ns, env):
+    if ps and isinstance(ps[0], dict) and "t" in ps[0] and ps[0].get("t") in ("ExprStmt", "Local", "MacroStmt"):
+        ps, ns = _flatten_unsafe(ps), _flatten_unsafe(ns)
+    return _mlist0(ps, ns, env)
+
+
+def _mlist0(ps, ns, env):
     if not ps:
         return not ns
     if _is_rest(ps[0]):
         for k in range(len(ns) + 1):
             e2 = dict(env)
-            if _mlist(ps[1:], ns[k:], e2):
+            if _mlist0(ps[1:], ns[k:], e2):
                 env.clear()
                 env.update(e2)
                 return True
@@ -190,7 +252,7 @@ def _mlist(ps, ns, env):
     if not ns:
         return False
     e2 = dict(env)
-    if _m(ps[0], ns[0], e2) and _mlist(ps[1:], ns[1:], e2):
+    if _m(ps[0], ns[0], e2) and _mlist0(ps[1:], ns[1:], e2):
         env.clear()
         env.update(e2)
         return True
